@@ -126,6 +126,11 @@ def flw15_flush_trigger(ctx):
                        'pending request after the flush', floor=4)
     P = ctx.P
     F = P.one('InnerLocustDB::enforce_wal_limit')
+    # predicates extracted into helpers (`fn too_many_wal_files(&self) -> bool`) are spliced in:
+    # any crate helper that reads the log-id range or is a small bool-returning method of the database
+    from . import common as _c
+    F = _c.inlined_anchor(P, F, lambda n: n.endswith('Storage::unflushed_wal_ids') or n.endswith('MetaStore::unflushed_wal_ids'),
+                          keep=('InnerLocustDB::wal_flush',))
     du = DefUse(F)
     cfg = CFG(F)
     flushes = calls_matching(F, lambda n: n.endswith('InnerLocustDB::wal_flush'))
